@@ -31,7 +31,7 @@ def gen_seq(rng, tier):
         if r == 0:
             return None
         if r == 1:
-            return "nope"
+            return rng.choice(["nope", "key-", "key-00", "KEY-0", ""])      # unknown; prefix / extension / other case of a real key; empty
         return "@t%d" % rng.below(ntenants)
 
     def pid():
@@ -300,7 +300,7 @@ def check(run):
         for o, s in zip(seq["ops"], ans["steps"]):
             run.count("op=" + o["op"])
             kk = o.get("key", o.get("admin"))
-            run.count("key=" + ("missing" if kk is None else ("unknown" if kk in ("nope", "bad") else ("admin" if kk == "adm" else "tenant"))))
+            run.count("key=" + ("missing" if kk is None else ("unknown" if kk in ("nope", "bad", "key-", "key-00", "KEY-0", "") else ("admin" if kk == "adm" else "tenant"))))
             run.count("status=%d" % s["st"])
             if "pid" in o:
                 own = owner_of_pid([t for t in prev if True], "p%d" % o["pid"]) if o["pid"] != UNKNOWN_PID else None
